@@ -26,6 +26,7 @@ def build_registry():
     numeric.install_axioms(reg)
     polynomial.install_axioms(reg)
     call.install_axioms(reg)
+    display.install_axioms(reg)
     from engine import textmodel
     textmodel.install(reg)
     for c in ALL_CONTRACTS.values():
@@ -33,6 +34,9 @@ def build_registry():
             ex.reg.used.add("contract:" + _c.name)
             return _c.apply(ex, args, kw, node)
         reg.fn[c.name] = model
+        parts = c.name.split(".")
+        if len(parts) == 3 and parts[0] == "numpoly" and not parts[1].startswith("ndpoly") and f"numpoly.{parts[2]}" not in ALL_CONTRACTS:
+            reg.fn.setdefault(f"numpoly.{parts[2]}", model)        # module-private helper called by its bare name
     # ndpoly methods that merely forward to a numpoly function (read from baseclass.py each run)
     import os
     from engine.forwarders import forwarders
@@ -227,7 +231,8 @@ PROPS = {
     "C09": dict(level="other", contracts=["numpoly.ndpoly.__getitem__", "numpoly.ndpoly.__array_finalize__", "numpoly.full", "numpoly.full_like"] + [
                     f"numpoly.{f}" for f in ("reshape", "transpose", "repeat", "tile", "expand_dims", "diag", "diagonal", "atleast_1d",
                                              "atleast_2d", "atleast_3d", "split", "array_split", "hsplit", "vsplit", "dsplit",
-                                             "concatenate", "stack", "hstack", "vstack", "dstack", "moveaxis", "where")],
+                                             "concatenate", "stack", "hstack", "vstack", "dstack", "moveaxis", "where", "choose",
+                                             "broadcast_arrays")],
                 explanation="ndpoly.__getitem__ (any index expression) rebuilds the result from the polynomial's own rows and names "
                 "with EVERY coefficient column indexed by the same index. The 15 raw movers (reshape, transpose, repeat, tile, "
                 "expand_dims, atleast_1/2/3d, diag, diagonal, split family) are proved to hand the whole raw storage of their operand "
@@ -237,14 +242,17 @@ PROPS = {
                 "to the t-th columns of all operands in order for every term t with the axis forwarded, and build from the aligned "
                 "rows/names. moveaxis goes through simple_dispatch (every column, parameters forwarded). That numpy's movers/joins "
                 "are dtype-agnostic and that moving all columns with one index map moves whole polynomial elements is bridge B6 "
-                "(trusted). where/choose/full/full_like/broadcast_arrays, iteration, ravel/flatten/.T and the numpy-level element "
+                "(trusted). where (a column-wise select with ONE condition), full / full_like, choose (numpy.choose on the whole raw "
+                "storage of the choices, selection array and mode forwarded) and broadcast_arrays (ONE numpy.broadcast_arrays call on "
+                "all raw storages in order, piece k rebuilt under operand k's names) are proved from their source as well. "
+                "Iteration, a list of choice arrays, ravel/flatten/.T and the numpy-level element "
                 "placement: bounded run-time contracts (conc/checks_c09.py, numpy on an object array of model polynomials).",
                 trusted_base=COMMON_TRUSTED + ["numpy movers/joins/indexing are dtype-agnostic (index map depends on shapes and arguments only)",
-                                               "assumed input-kind contract: polynomial/aspolynomial of a raw structured array plus names "
-                                               "(decoding of field names: codec proved under C20)",
+                                               "polynomial/aspolynomial of a raw structured array plus names decodes every field "
+                                               "(proved: contracts/polynomial.py, codec under C20)",
                                                "inspect.signature of the installed numpy (asked from /venv/bin/python each run)"],
                 assumptions=["B6 (column-wise / record-wise moves with one index map move whole polynomial elements)"],
-                not_decided=["where, choose, full, full_like, broadcast_arrays, iteration (bounded only)",
+                not_decided=["iteration (__iter__), choose with a list of choice arrays (bounded only)",
                              "which element numpy places where (numpy semantics: bounded conformance)"]),
     "C10": dict(level="other", contracts=["numpoly.simple_dispatch", "numpoly.sum", "numpoly.cumsum", "numpoly.mean", "numpoly.diff",
                                           "numpoly.multiply", "numpoly._prod", "numpoly.prod"],
@@ -330,7 +338,8 @@ PROPS = {
                 trusted_base=COMMON_TRUSTED + ["pickle/copy protocol of CPython and numpy's array pickling", "contract of polynomial_from_attributes (proved under C03)"],
                 assumptions=["B1 (abstract value depends only on the sparse coefficient map)"],
                 not_decided=["savetxt/loadtxt round trip (bounded only)", ".copy() itself is numpy's ndarray.copy (trusted) + __array_finalize__ (proved)"]),
-    "C16": dict(level="other", contracts=["numpoly.glexsort", "numpoly.array_repr._to_string"], statics=[display.static_obligations],
+    "C16": dict(level="other", contracts=["numpoly.glexsort", "numpoly.array_repr._to_string", "numpoly.array_repr.to_string"],
+                statics=[display.static_obligations],
                 explanation="Order clause: static obligations (AST of array_repr.py, every run) establish that _to_string visits the "
                 "terms in the order numpoly.glexsort returns for the exponent rows with graded/reverse taken from the display_graded/"
                 "display_reverse options of the current option map, reversed exactly when display_inverse is set, one chunk appended "
@@ -343,7 +352,9 @@ PROPS = {
                 "of the visited term; every indeterminate occurs at most once and with exactly its stored exponent (absent iff 0); only "
                 "the polynomial's names occur; a chunk is never empty; every chunk after the first starts with a sign and '+' is put "
                 "only before a non-negative number; a term is left out only if its coefficient is zero or (on request) below the "
-                "suppression threshold; the visiting order is a permutation of all stored terms. What the characters of str(number) "
+                "suppression threshold; the visiting order is a permutation of all stored terms. to_string (0-d) is proved to take a missing "
+                "precision / suppress_small from numpy's print options, to join exactly the chunks of _to_string for this polynomial "
+                "without separator, and to print the zero of the dtype when there is no chunk - reading the polynomial only. What the characters of str(number) "
                 "are, numpy.array2string for arrays, complex coefficients and to_sympy: bounded run-time check with an independent "
                 "character-level parser (conc/checks_c16.py).", trusted_base=COMMON_TRUSTED + [
                     "text axioms of engine/textmodel.py: str(c) is never '', '+' or '-' and starts with '-' exactly for c < 0; names are identifiers"],
